@@ -19,6 +19,9 @@ checks/c07.py):
     `xaxis` / `xanchor` that `mj_kinematics` stores;
   * `differentiate_integrate_*` — `mj_differentiatePos` inverts `mj_integratePos` (slide / hinge exactly; ball / free
     `_partial` under the no-wrap conditions of `C24.subQuat_quatIntegrate`).
+  * `local2Global_shortcut_exact` — in each of the five `mjtSameFrame` classes, in the position and in the orientation
+    switch, the shortcut taken by `mj_local2Global` returns exactly `xpos + xmat * pos` and the matrix of `xquat * quat`
+    whenever the class is legitimate for the object;
   * `mergeChain_sorted`, `mergeChain_mem`, `mergeChain_skipcommon_mem`, `bodyChain_mem` — the sparse dof chains of
     `mj_mergeChain` / `mj_bodyChain` (`MjProof/Model/DofChain.lean`, tied to the C functions by exact integer
     correspondence) are strictly increasing and contain exactly the dofs that move either body, resp. with
@@ -491,6 +494,64 @@ theorem local2Global_proper (bf : Frame ℝ) (xipos : V3 ℝ) (ximat : M9 ℝ) (
     rw [← h]; exact hi
   · simp [h0, h1, h2, h3, h4] at h
 
+
+/-- the generic (mjSAMEFRAME_NONE) result of `mj_local2Global`: body frame ∘ local pose -/
+noncomputable def genericPose (bf : Frame ℝ) (pos : V3 ℝ) (quat : Q4 ℝ) : V3 ℝ × M9 ℝ :=
+  (Kinematics.add3 (Kinematics.mulMatVec3 bf.mat pos) bf.pos, Kinematics.quat2Mat (Kinematics.mulQuat bf.quat quat))
+
+/-- **The sameframe shortcuts are exact, in both switches.**  Whenever the class stored for an object is legitimate — BODY:
+null local pose; BODYROT: null local rotation; INERTIA: the local pose is the body's inertial pose (so `xipos` / `ximat`
+are this object's generic result); INERTIAROT: the local rotation is the inertial one (so `ximat` is the matrix of
+`xquat * quat`) — the model of `mj_local2Global` returns, in every one of the five classes, exactly the position
+`xpos + xmat * pos` and the matrix of `xquat * quat`.  (Grouping INERTIAROT with the body-orientation cases, or BODYROT /
+INERTIAROT with the copy-position cases, makes this theorem false.) -/
+theorem local2Global_shortcut_exact (bf : Frame ℝ) (xipos : V3 ℝ) (ximat : M9 ℝ) (pos : V3 ℝ) (quat : Q4 ℝ) (sf : Int)
+    (hb : Good bf)
+    (hq13 : sf = 1 ∨ sf = 3 → quat = (1, 0, 0, 0))
+    (hp1 : sf = 1 → pos = (0, 0, 0))
+    (hm24 : sf = 2 ∨ sf = 4 → ximat = (genericPose bf pos quat).2)
+    (hp2 : sf = 2 → xipos = (genericPose bf pos quat).1)
+    (r : V3 ℝ × M9 ℝ) (h : local2Global bf xipos ximat pos quat sf = some r) : r = genericPose bf pos quat := by
+  have hone : ∀ q : Q4 ℝ, Kinematics.mulQuat q (1, 0, 0, 0) = q := by
+    intro q; obtain ⟨q0, q1, q2, q3⟩ := q
+    simp only [Kinematics.mulQuat, mju_mulQuat_eq, Prod.mk.injEq]
+    refine ⟨?_, ?_, ?_, ?_⟩ <;> ring
+  have hzero : ∀ m : M9 ℝ, Kinematics.mulMatVec3 m (0, 0, 0) = (0, 0, 0) := by
+    intro m; obtain ⟨m0, m1, m2, m3, m4, m5, m6, m7, m8⟩ := m
+    simp only [Kinematics.mulMatVec3, mju_mulMatVec3_eq, Prod.mk.injEq]
+    refine ⟨?_, ?_, ?_⟩ <;> ring
+  unfold local2Global at h
+  simp only [] at h
+  by_cases h0 : sf = 0
+  · subst h0; simp at h; rw [← h]; rfl
+  by_cases h1 : sf = 1
+  · subst h1
+    simp at h
+    rw [← h, genericPose, hq13 (Or.inl rfl), hp1 rfl, hone, hzero, ← hb.2]
+    obtain ⟨p0, p1, p2⟩ := bf.pos
+    simp [Kinematics.add3]
+  by_cases h2 : sf = 2
+  · subst h2
+    simp at h
+    rw [← h, hm24 (Or.inl rfl), hp2 rfl]
+  by_cases h3 : sf = 3
+  · subst h3
+    simp at h
+    rw [← h, genericPose, hq13 (Or.inr rfl), hone, ← hb.2]
+  by_cases h4 : sf = 4
+  · subst h4
+    simp at h
+    rw [← h, hm24 (Or.inr rfl)]
+    rfl
+  · simp [h0, h1, h2, h3, h4] at h
+
+/-- the INERTIAROT hypotheses are satisfiable with a rotated inertial frame and an object away from the inertial position:
+body at the identity, inertial frame rotated by π about x, object at (1, 0, 0) with that rotation -/
+example : ∃ r, local2Global (worldFrame : Frame ℝ) (0, 0, 0)
+      (genericPose worldFrame (1, 0, 0) (0, 1, 0, 0)).2 (1, 0, 0) (0, 1, 0, 0) 4 = some r ∧
+    r = genericPose worldFrame (1, 0, 0) (0, 1, 0, 0) := by
+  refine ⟨_, rfl, ?_⟩
+  rfl
 
 /-! ### non-vacuity -/
 
